@@ -181,6 +181,7 @@ pub fn check_multi(case: &MultiCase, ctx: &mut CaseCtx) -> CaseResult {
     let mut dec2 = FrameDecoder::new();
     let r2 = dec2.decode_all_to_vec(&input, &mut v);
     ensure!(v.capacity() == cap && v.as_ptr() == ptr, "vec_reallocated", "decode_all_to_vec changed the vector's allocation");
+    ensure!(v.len() >= prefix.len(), "vec_prefix_changed", "decode_all_to_vec shortened the vector below its existing content ({} -> {} bytes, result {:?})", prefix.len(), v.len(), r2.as_ref().err().map(|e| e.to_string()));
     ensure!(v[..prefix.len()] == prefix[..], "vec_prefix_changed", "decode_all_to_vec changed existing vector content");
     match (&r2, expect_ok_vec) {
         (Ok(()), true) => ensure!(v.len() == prefix.len() + total && v[prefix.len()..] == content[..], "multi_frame_content_vec", "decode_all_to_vec: length {} expected {}", v.len(), prefix.len() + total),
